@@ -351,7 +351,7 @@ func (c *Ctx) ord10() {
 						a.fail(p, i, "%s runs after a side effect (%s): an invalid argument leaves a trace (a slot, a stored record or bytes on the wire)", load.FuncName(e.Callee), strings.TrimSpace(DescribeEvent(c.P, &p.Events[ie])))
 					}
 					if e.Kind == pathx.KReturn && len(e.Results) > 0 {
-						for k := range classes(ef.of(e.Results[len(e.Results)-1])) {
+						for k := range classes(ef.ofOn(p, e.Results[len(e.Results)-1])) {
 							if deny[k] {
 								a.fail(p, i, "a deny error (%s) is returned after a side effect (%s)", k, strings.TrimSpace(DescribeEvent(c.P, &p.Events[ie])))
 							}
@@ -494,7 +494,7 @@ func (c *Ctx) ord10() {
 					continue
 				}
 				bad := ""
-				for k := range classes(ef.of(res[len(res)-1])) {
+				for k := range classes(ef.ofOn(p, res[len(res)-1])) {
 					if !deny[k] {
 						bad = k
 					}
